@@ -13,10 +13,16 @@ MANIFEST = {
             "velocity (bitwise) and, with c1 = c2 = 0, v' = clamp(stored weight * v); after the Linear mapping the weight "
             "is exactly (end - start) * progress + start; personal bests follow the strict rule and equal the per-particle "
             "history minimum kept by the spec; global best = min of personal bests; the three collections have one entry per "
-            "particle; memories change only in their update components.",
+            "particle; memories change only in their update components; at the END OF EVERY PASS of the swarm's loop, whatever "
+            "steps the pass consists of, personal bests = history minima and global best = min of personal bests (PsoPassEnd); "
+            "for any c1, c2 the new velocity lies in the interval that the stored weight times the old velocity and the two "
+            "attraction terms (each between 0 and c * (best - x)) leave, clamped (vrange). The grid includes inertia weights "
+            "above 1 (decreasing, increasing and constant schedules, with and without acceleration terms), the generic pso "
+            "template without a weight schedule (real_pso|const) and swarms on domains of width 2e-9 / 2e9 (improvements far "
+            "below f64::EPSILON in absolute terms; memories are judged by rank).",
     "technique": "TLA+ spec + TLC model checking + TLC trace validation of step-observer traces (float facts as harness predicates)",
     "design_ref": "DESIGN.md §6 C18, §2.4",
-    "note": "P-pred predicates (vmax_ok, moved_exact, vexact, wexact) are evaluated in f64 by harness/src/drivers/templates_extra.rs",
+    "note": "P-pred predicates (vmax_ok, moved_exact, vexact, vrange, wexact) are evaluated in f64 by harness/src/drivers/templates_extra.rs",
 }
 
 RULE = ("cases = every component step of real_pso runs over the parameter grid x seeds (plus all rank histories of the "
@@ -32,10 +38,12 @@ def run(ctx):
                          iters=[0, 1, 6, 25] if q else [0, 1, 6, 25, 80], templates=["real_pso", "real_pso|evals", "real_pso|log4"], quick_grid=False)
     # harness-built PSO configurations: a second swarm under identifier A next to a default one, a scoped inner loop with
     # its own LessThanN inside the repair step, a swarm started after another phase filled the best-individual memory
-    from checks.templates_grid import pso_variant_specs
+    from checks.templates_grid import pso_variant_specs, pso_specs
     runlib.run_templates(ctx, ["C18"], seeds=None, iters=None, name="variants",
                          extra_specs=pso_variant_specs([ctx.seed, ctx.seed + 1] if q else list(range(ctx.seed, ctx.seed + 12)),
-                                                       [2, 7] if q else [2, 7, 30]))
+                                                       [2, 7] if q else [2, 7, 30])
+                                     + pso_specs(q, [ctx.seed, ctx.seed + 1] if q else list(range(ctx.seed, ctx.seed + 12)),
+                                                 [1, 6, 40] if q else [1, 6, 40, 200]))
     return ctx.finish(RULE)
 
 
